@@ -26,8 +26,9 @@ from ..core import Ctx, HarnessError, Violation, hyp_run, shard_run
 
 PID = "C11"
 LEVEL = "exploration"
-RULE = ("part 1: for each of 7 scripted overlay runs (plain Community, Discovery, DHTDiscovery, Tunnel, Pex, Identity, "
-        "Attestation) unload is requested after delivery k for k = 0..K (quick: ~60 evenly spread k per run, rotated by "
+RULE = ("part 1: for each of 12 scripted runs (plain Community, the same on a TunnelEndpoint, Discovery, DHTDiscovery, Tunnel, "
+        "HiddenTunnel seeding a swarm, Pex, Identity, Attestation, and three complete ipv8_service.IPv8 instances with the "
+        "default configuration where Discovery / HiddenTunnel / DHTDiscovery is unloaded through IPv8.unload_overlay) unload is requested after delivery k for k = 0..K (quick: ~60 evenly spread k per run, rotated by "
         "seed; thorough: every k) and at Hypothesis-drawn virtual times; then ~100-600 late datagrams + 256 ids and 2 h "
         "of virtual time. Non-trivial = at the cut the overlay had a pending request cache entry, a circuit / relay / exit "
         "entry, an open outside socket or a running non-periodic task. part 2: Hypothesis op lists (<= 40 ops) over "
@@ -172,7 +173,10 @@ class UnloadRun:
         st["busy"] = busy
         for sock in list(getattr(ov, "exit_sockets", {}).values()):
             self.track_manager(sock)
-        await ov.unload()
+        if env.unload_fn is not None:
+            await env.unload_fn()          # through the service object, as an application does
+        else:
+            await ov.unload()
         st["done"] = True
         st["seq_done"] = env.net.seq
 
@@ -231,13 +235,18 @@ class UnloadRun:
         # the observed node is left alone for the rest of the two hours
         await asyncio.sleep(60)
         check("a minute later")
+        for inst in getattr(env, "instances", [])[1:]:
+            if inst.state_machine_task:
+                inst.state_machine_task.cancel()
         for nd in env.nodes:
             if nd is not node:
                 try:
                     await nd.unload()
                 except BaseException:  # noqa: BLE001
                     pass
-        await asyncio.sleep(7200)
+        # a complete service instance keeps ticking its remaining walkers 20 times a second: two more minutes there,
+        # two hours for a bare overlay
+        await asyncio.sleep(120 if getattr(env, "instances", None) else 7200)
         check("two hours later")
         open_tr = [t.local_addr for t in st["owned_transports"] if not t.closed]
         if open_tr:
